@@ -58,8 +58,16 @@ PROPS = {
             'unverified': ['"renders as if deleted" relation over documents']},
     'C19': {'text': 'Proof: WithSpec::maybe_update replaces the stored value exactly when the cascade key (importance/origin rank, specificity) of the new declaration is >= the stored one, for all keys; Specificity order is lexicographic.',
             'unverified': ['nearest-ancestor colour nesting relies on push/pop pairing in closures']},
-    'C20': {'text': 'Proof for :nth-child(an+b) arithmetic against the integer-existential spec and for specificity counting.',
-            'unverified': ['class/id/element/combinator matching walks Rc<Node>/RefCell and is not under contract']},
+    'C20': {'text': 'Proof (partial correctness) that the real Selector::do_matches / matches return exactly the CSS selector semantics '
+                    '(class, id, element name, universal, child and descendant combinators as "some proper ancestor", :nth-child(an+b of S) '
+                    'as rank among matching element siblings) over the repository\'s own DOM types; :nth-child arithmetic against the '
+                    'integer-existential spec; specificity counting.',
+            'unverified': ['termination of the do_matches recursion is not proved (exec_allows_no_decreases_clause)',
+                           'A10 the DOM is not mutated during matching: RefCell contents are a function of the cell',
+                           'A11 tree shape delivered by html5ever: a node is among the children of its parent exactly once, fewer than 2^31 children, '
+                           'parents are elements or the document, the document has no parent (axiom_tree, get_parent contract)',
+                           'string comparisons on html5ever LocalName / StrTendril and str::split_whitespace are named trusted functions with uninterpreted results',
+                           'selector parsing (src/css/parser.rs) and selector lists / rule application are not under contract']},
 }
 
 for _p in PROPS.values():
